@@ -24,7 +24,7 @@ static int script(std::string const &cmd) {
 }
 
 int main(int argc, char **argv) {
-  double T = 0.0; std::string in, out, traj, conf; std::vector<std::string> pre, post;
+  double T = 0.0; bool repeat = false; std::string in, out, traj, conf; std::vector<std::string> pre, post;
   for (int i = 1; i < argc; i++) {
     std::string a = argv[i];
     if (a == "-T") T = atof(argv[++i]);
@@ -33,6 +33,7 @@ int main(int argc, char **argv) {
     else if (a == "-x") traj = argv[++i];
     else if (a == "-s") post.push_back(argv[++i]);
     else if (a == "-S") pre.push_back(argv[++i]);
+    else if (a == "-r") repeat = true;   // the first frame repeats the step of the loaded state, as MD engines do
     else conf = a;
   }
   int err = 0;
@@ -47,6 +48,7 @@ int main(int argc, char **argv) {
   if (conf.size()) err |= proxy->colvars->read_config_file(conf.c_str());
   for (auto &s : pre) script(s);
   if (in.size()) err |= proxy->colvars->setup_input();
+  if (repeat) proxy->colvars->it--;
   if (traj.size()) {
     std::ifstream ifs(traj); int natoms; ifs >> natoms; ifs.close();
     for (int ai = 0; ai < natoms; ai++) proxy->init_atom(ai + 1);
